@@ -53,6 +53,9 @@ class Contract:
     # callee name -> clauses owed at every call of that callee in this unit's own body; evaluated in the caller's state with
     # the callee's parameter names bound to the actual arguments (what is passed on, stated where the data is known)
     at_call: dict[str, list[str]] = field(default_factory=dict)
+    # methods of opaque (external) objects that are read-only queries: the result is an uninterpreted function of the
+    # receiver, written uf_any('method', receiver) in clauses
+    pure_opaque: list[str] = field(default_factory=list)
 
 
 @dataclass
@@ -218,3 +221,11 @@ def load_sidecars(directory: str) -> Registry:
             runpy.run_path(os.path.join(directory, fn), run_name="sidecar_" + fn[:-3])
     REGISTRY._loaded = directory
     return REGISTRY
+
+
+# run-time readings of uninterpreted spec functions (uf_str('tag', ...)), registered by sidecars
+RUNTIME_FNS: dict = {}
+
+
+def runtime_fn(tag: str, fn):
+    RUNTIME_FNS[tag] = fn
